@@ -187,6 +187,15 @@ case("data_unknown_flag", "unknown flag in sv::data",
 case("payload_unknown_flag", "unknown flag in sv::payload",
      contract(NEW + INST + "    #[sv::msg(reply, handlers=[h], reply_on=success)]\n    fn on_ok(&self, _ctx: ReplyCtx, #[sv::payload(bytes)] payload: Binary) -> StdResult<Response> { Ok(Response::new()) }" + E + "\n", attrs=R),
      contract(NEW + INST + OK_S, attrs=R))
+case("payload_without_params", "#[sv::payload] without parameters",
+     contract(NEW + INST + "    #[sv::msg(reply, handlers=[h], reply_on=success)]\n    fn on_ok(&self, _ctx: ReplyCtx, #[sv::payload] payload: Binary) -> StdResult<Response> { Ok(Response::new()) }" + E + "\n", attrs=R),
+     contract(NEW + INST + OK_S, attrs=R))
+case("payload_trailing_tokens", "unexpected tokens after `raw` in sv::payload",
+     contract(NEW + INST + "    #[sv::msg(reply, handlers=[h], reply_on=success)]\n    fn on_ok(&self, _ctx: ReplyCtx, #[sv::payload(raw, extra)] payload: Binary) -> StdResult<Response> { Ok(Response::new()) }" + E + "\n", attrs=R),
+     contract(NEW + INST + OK_S, attrs=R))
+case("entry_points_bad_argument", "entry_points argument that is not generics<..>",
+     contract(NEW + INST + RUN, pre="#[entry_points(types<Empty>)]" + E + "\n#[contract]"),
+     contract(NEW + INST + RUN, pre="#[entry_points]\n#[contract]"))
 case("reply_on_unknown", "unknown value of reply_on",
      contract(NEW + INST + f"    #[sv::msg(reply, handlers=[h], reply_on=failure)]{E}\n    fn on_err(&self, _ctx: ReplyCtx, error: String, {PAY}) -> StdResult<Response> {{ Ok(Response::new()) }}\n", attrs=R),
      contract(NEW + INST + OK_E, attrs=R))
